@@ -867,6 +867,7 @@ func genSliceIdioms() string {
 		rowsOf: map[string][]sliceRow{}, retClass: map[string]sclass{}}
 	sa.load("", "types/arraytype.go", "types/hashtype.go", "types/basiccollector.go", "types/parser.go", "types/types.go")
 	sa.load("px", "px/collection.go")
+	sa.load("serialization", "serialization/deserializer.go")
 
 	// which functions: every method of Array / Hash / MutableHashValue that returns a collection or consumes
 	// slices of the receiver, the collection constructors, the collector, the parser's hash-entry conversion
@@ -908,9 +909,201 @@ func genSliceIdioms() string {
 			lines = append(lines, fmt.Sprintf("  (%s, %s)", leanStr(r.key), r.idiom))
 		}
 	}
+	// every call of BuildArray / BuildHash: what the builder callback returns
+	lines = append(lines, builderRows(sa)...)
 	b.WriteString(strings.Join(lines, ",\n"))
+	b.WriteString("]\n\n")
+	// the statements each classification relied on (allocations, copies, appends, in-place writes, returns): for the
+	// reader of a broken obligation and for the audit of the extractor — no theorem depends on this text
+	b.WriteString("/-- per function: the statements the classification above relied on -/\n")
+	b.WriteString("def sliceIdiomEvidence : List (String × List String) := [\n")
+	var ev []string
+	for _, k := range keys {
+		if len(sa.rows(k)) == 0 && !strings.HasPrefix(k, "BasicCollector.") {
+			continue
+		}
+		if es := evidenceOf(sa, sa.funcs[k]); len(es) > 0 {
+			for i := range es {
+				es[i] = leanStr(es[i])
+			}
+			ev = append(ev, fmt.Sprintf("  (%s, [%s])", leanStr(k), strings.Join(es, ",\n      ")))
+		}
+	}
+	b.WriteString(strings.Join(ev, ",\n"))
 	b.WriteString("]\n\nend Pcore.Generated\n")
 	return b.String()
+}
+
+// evidenceOf: the slice-relevant statements of a function, in source order
+func evidenceOf(sa *sliceAnalysis, fd *ast.FuncDecl) []string {
+	e := sa.newEnv(fd)
+	e.scanAssignments()
+	var out []string
+	clip := func(x string) string {
+		if len(x) > 150 {
+			return x[:150] + " …"
+		}
+		return x
+	}
+	ast.Inspect(fd.Body, func(n ast.Node) bool {
+		switch s := n.(type) {
+		case *ast.AssignStmt:
+			rel := false
+			for _, r := range s.Rhs {
+				if looksLikeSlice(r) {
+					rel = true
+				}
+				if call, ok := r.(*ast.CallExpr); ok && e.mayReturnSlice(call) {
+					rel = true
+				}
+				if _, ok := storageOfConstruction(r); ok {
+					rel = true
+				}
+				if _, ok := e.sliceFieldOfLit(r); ok {
+					rel = true
+				}
+			}
+			for _, l := range s.Lhs {
+				if ix, ok := l.(*ast.IndexExpr); ok && e.class(ix.X) != cUnknown {
+					rel = true
+				}
+				if sel, ok := l.(*ast.SelectorExpr); ok && storageField[sel.Sel.Name] {
+					rel = true
+				}
+			}
+			if rel {
+				out = append(out, clip(src(s)))
+			}
+		case *ast.ExprStmt:
+			if call, ok := s.X.(*ast.CallExpr); ok {
+				fn := src(call.Fun)
+				if fn == "copy" || strings.HasPrefix(fn, "sort.") {
+					out = append(out, clip(src(s)))
+				}
+			}
+		case *ast.ReturnStmt:
+			if returnsCollection(fd) || (fd.Type.Results != nil && len(fd.Type.Results.List) == 1 && isSliceType(fd.Type.Results.List[0].Type)) {
+				out = append(out, clip(src(s)))
+			}
+		}
+		return true
+	})
+	return out
+}
+
+// builderRows: every call `BuildArray(n, func(a *Array, elements []px.Value) []px.Value { … })` (BuildHash alike) in the
+// analysed files — the constructor hands a fresh zero-length slice to the callback and stores what it returns:
+//
+//	.appendsToGiven   the callback returns its slice parameter, which it only ever re-assigns by `p = append(p, …)`
+//	.ownedHandOver    the callback pushes the parameter on the collector's private stack, runs the nested events, takes
+//	                  the slice back from the stack AND pops it (`st := hm.stack[top]; hm.stack = hm.stack[0:top]`)
+//	                  before returning it: nothing can append to it afterwards
+func builderRows(sa *sliceAnalysis) []string {
+	var keys []string
+	for k := range sa.funcs {
+		keys = append(keys, k)
+	}
+	sort.Strings(keys)
+	var out []string
+	for _, k := range keys {
+		fd := sa.funcs[k]
+		n := 0
+		ast.Inspect(fd.Body, func(nd ast.Node) bool {
+			call, ok := nd.(*ast.CallExpr)
+			if !ok {
+				return true
+			}
+			fn := src(call.Fun)
+			if fn != "BuildArray" && fn != "BuildHash" && fn != "types.BuildArray" && fn != "types.BuildHash" {
+				return true
+			}
+			raw := strings.Join(strings.Fields(src(call)), " ")
+			if len(raw) > 160 {
+				raw = raw[:160] + " …"
+			}
+			idiom := ".unknown " + leanStr(raw)
+			if len(call.Args) == 2 {
+				if fl, ok := call.Args[1].(*ast.FuncLit); ok && len(fl.Type.Params.List) == 2 && len(fl.Type.Params.List[1].Names) == 1 {
+					idiom = classifyBuilder(fl, fl.Type.Params.List[1].Names[0].Name, idiom)
+				}
+			}
+			out = append(out, fmt.Sprintf("  (%s, %s)", leanStr(fmt.Sprintf("%s/b%d", k, n)), idiom))
+			n++
+			return true
+		})
+	}
+	return out
+}
+
+func classifyBuilder(fl *ast.FuncLit, param string, unknown string) string {
+	// all assignments to the parameter must be `param = append(param, …)`; nobody else may be handed the parameter
+	// except `append(X.stack, param)` (the collector's stack)
+	onlyAppends := true
+	pushed := "" // X.stack when the parameter is pushed there
+	taken := ""  // local taken back from X.stack[top]
+	popped := false
+	var returns []string
+	ast.Inspect(fl.Body, func(n ast.Node) bool {
+		switch s := n.(type) {
+		case *ast.AssignStmt:
+			for i, l := range s.Lhs {
+				if i >= len(s.Rhs) {
+					break
+				}
+				ls, rs := src(l), src(s.Rhs[i])
+				if ls == param {
+					if !strings.HasPrefix(rs, "append("+param+", ") {
+						onlyAppends = false
+					}
+					continue
+				}
+				if strings.HasSuffix(ls, ".stack") && rs == "append("+ls+", "+param+")" {
+					pushed = ls
+					continue
+				}
+				if pushed != "" && strings.HasPrefix(rs, pushed+"[") && !strings.Contains(rs, ":") {
+					if id, ok := l.(*ast.Ident); ok {
+						taken = id.Name
+					}
+					continue
+				}
+				if pushed != "" && ls == pushed && strings.HasPrefix(rs, pushed+"[0:") {
+					popped = true
+					continue
+				}
+			}
+		case *ast.ReturnStmt:
+			if len(s.Results) == 1 {
+				returns = append(returns, src(s.Results[0]))
+			}
+		case *ast.FuncLit:
+			if s != fl {
+				// nested closures (Each callbacks): their returns are not the builder's
+				ast.Inspect(s.Body, func(m ast.Node) bool {
+					if as, ok := m.(*ast.AssignStmt); ok {
+						for i, l := range as.Lhs {
+							if i < len(as.Rhs) && src(l) == param && !strings.HasPrefix(src(as.Rhs[i]), "append("+param+", ") {
+								onlyAppends = false
+							}
+						}
+					}
+					return true
+				})
+				return false
+			}
+		}
+		return true
+	})
+	if len(returns) != 1 {
+		return unknown
+	}
+	switch {
+	case returns[0] == param && onlyAppends && pushed == "":
+		return ".appendsToGiven"
+	case taken != "" && returns[0] == taken && popped && onlyAppends:
+		return ".ownedHandOver"
+	}
+	return unknown
 }
 
 // collectorRows: writes to the collector's own stack (`hm.stack[top] = append(hm.stack[top], x)`, `= st[:l]`)
